@@ -75,15 +75,15 @@ def encFC (c : FC) : Sexp := .list [.atom "fc", encBBox c.bbox, .list (c.feature
 def fmtShortest : Ord → String := ParseFloat.formatShortest
 
 /-- Model result for a kind of document. -/
-def modelDecode (kind : String) (j : Option J) : Sexp :=
+def modelDecode (dl : Layout) (kind : String) (j : Option J) : Sexp :=
   match j with
   | none => .list [.atom "err", .atom "json"]
   | some j =>
     let fuel := sizeJ j + 4
     match kind with
-    | "geom" => encOutcome encGeomOpt (unmarshal parseNum fuel j)
-    | "feat" => encOutcome encFeat (featureOf parseNum fmtShortest fuel j)
-    | _ => encOutcome encFC (featureCollectionOf parseNum fmtShortest fuel j)
+    | "geom" => encOutcome encGeomOpt (unmarshal dl parseNum fuel j)
+    | "feat" => encOutcome encFeat (featureOf dl parseNum fmtShortest fuel j)
+    | _ => encOutcome encFC (featureCollectionOf dl parseNum fmtShortest fuel j)
 
 def wfW : Nat → WGeom → Bool
   | _, .point g => g.wellFormedPoint
@@ -136,17 +136,17 @@ def sameGeom (raw : WGeom) (want : AGeom) : Bool :=
   | _ => false
 
 /-- Oracle for one geometry that went through the encoder and back. -/
-def roundTripVerdict (a : AGeom) (decoded : Sexp) : String :=
+def roundTripVerdict (dl : Layout) (a : AGeom) (decoded : Sexp) : String :=
   let fuel := depthA 64 a + 2
   match decoded with
   | .list [.atom "ok", r] =>
       (match decW r with
        | some raw =>
-          if sameGeom raw (expected fuel a) then "ok"
+          if sameGeom raw (expected dl fuel a) then "ok"
           else "FAIL the geometry read back differs from the original (type, layout, structure or an ordinate)"
        | none => "FAIL the geometry read back is nil or unreadable")
   | .list (.atom "err" :: _) =>
-      if carveOut fuel a then "ok" else "FAIL a representable geometry could not be read back"
+      if carveOut dl fuel a then "ok" else "FAIL a representable geometry could not be read back"
   | _ => "FAIL round trip panicked"
 
 def readerVerdict (a : AGeom) (j : J) : String :=
@@ -160,7 +160,7 @@ def decAOpt : Dec (Option AGeom)
   | .atom "nil" => some none
   | s => (decA s).map some
 
-def featVerdict (idIn : String) (bboxIn : Sexp) (a : Option AGeom) (propsIn : Sexp) (got : Sexp) : String :=
+def featVerdict (dl : Layout) (idIn : String) (bboxIn : Sexp) (a : Option AGeom) (propsIn : Sexp) (got : Sexp) : String :=
   match got with
   | .list [.atom "feat", .atom idOut, bboxOut, g, props] =>
       if idOut != idIn then "FAIL Feature id changed across a round trip"
@@ -172,7 +172,7 @@ def featVerdict (idIn : String) (bboxIn : Sexp) (a : Option AGeom) (propsIn : Se
         | some a =>
             if g.toStr == "nil" then "FAIL Feature geometry lost across a round trip"
             else
-              let v := roundTripVerdict a (.list [.atom "ok", g])
+              let v := roundTripVerdict dl a (.list [.atom "ok", g])
               if v == "ok" then "ok" else v
   | _ => "FAIL unreadable feature"
 
@@ -197,14 +197,14 @@ def idVerdict (j : Option J) (go : Sexp) : String :=
       | _, _ => "ok"
   | _, _ => "ok"
 
-def handle (op : String) (inp go : Sexp) : Option Reply :=
+def handleDL (dl : Layout) (op : String) (inp go : Sexp) : Option Reply :=
   match op, inp with
   | "C07.geom", a => do
       let a ← decA a
       let text := textOf go
       let j := text.bind JsonText.parse
       let m := match j with
-        | some j => modelDecode "geom" (some j)
+        | some j => modelDecode dl "geom" (some j)
         | none => .list [.atom "err", .atom "json"]
       let v : String :=
         match text, j with
@@ -213,7 +213,7 @@ def handle (op : String) (inp go : Sexp) : Option Reply :=
         | some _, some j =>
             let rv := readerVerdict a j
             if rv != "ok" then rv else
-            let v1 := roundTripVerdict a (payloadOf go)
+            let v1 := roundTripVerdict dl a (payloadOf go)
             if v1 != "ok" then v1 else
             match measure go "ed" with
             | some ed => if ed.toStr == (payloadOf go).toStr then "ok"
@@ -225,24 +225,24 @@ def handle (op : String) (inp go : Sexp) : Option Reply :=
       let text := textOf go
       let j := text.bind JsonText.parse
       let m := match j with
-        | some j => modelDecode "feat" (some j)
+        | some j => modelDecode dl "feat" (some j)
         | none => .list [.atom "err", .atom "json"]
       let v : String :=
         match j, payloadOf go with
         | none, _ => "FAIL the emitted Feature text is not valid JSON"
-        | some _, .list [.atom "ok", got] => featVerdict idIn bboxIn a propsIn got
+        | some _, .list [.atom "ok", got] => featVerdict dl idIn bboxIn a propsIn got
         | some _, .list (.atom "err" :: _) =>
-            if (a.map (carveOut 64)).getD false then "ok" else "FAIL a Feature could not be read back"
+            if (a.map (carveOut dl 64)).getD false then "ok" else "FAIL a Feature could not be read back"
         | _, _ => "FAIL Feature round trip panicked"
       pure ⟨m.toStr, v⟩
   | "C07.fc", .list [bboxIn, .list featsIn] => do
       let text := textOf go
       let j := text.bind JsonText.parse
       let m := match j with
-        | some j => modelDecode "fc" (some j)
+        | some j => modelDecode dl "fc" (some j)
         | none => .list [.atom "err", .atom "json"]
       let anyCarve := featsIn.any fun f => match f with
-        | .list [_, _, a, _] => ((decAOpt a).bind id |>.map (carveOut 64)).getD false
+        | .list [_, _, a, _] => ((decAOpt a).bind id |>.map (carveOut dl 64)).getD false
         | _ => false
       let v : String :=
         match j, payloadOf go with
@@ -256,7 +256,7 @@ def handle (op : String) (inp go : Sexp) : Option Reply :=
                 | .atom "nil", .atom "nil" => "ok"
                 | .list [.atom idIn, bb, a, props], fo =>
                     (match decAOpt a with
-                     | some a => featVerdict idIn bb a props fo
+                     | some a => featVerdict dl idIn bb a props fo
                      | none => "na")
                 | _, _ => "FAIL a feature appeared or vanished"
               (vs.find? (· != "ok")).getD "ok"
@@ -270,7 +270,15 @@ def handle (op : String) (inp go : Sexp) : Option Reply :=
         | s => (decJ s).map some
       let v := decVerdict go
       let v := if v == "ok" && kind == "feat" then idVerdict j go else v
-      pure ⟨(modelDecode kind j).toStr, v⟩
+      pure ⟨(modelDecode dl kind j).toStr, v⟩
   | _, _ => none
+
+/-- `geojson.DefaultLayout` is XY unless the caller has assigned it: the `…dl` operations carry the
+value it had during the call. -/
+def handle (op : String) (inp go : Sexp) : Option Reply :=
+  match op, inp with
+  | "C07.geomdl", .list [d, a] => do handleDL (← nat d) "C07.geom" a go
+  | "C07.decdl", .list (d :: rest) => do handleDL (← nat d) "C07.dec" (.list rest) go
+  | _, _ => handleDL 1 op inp go
 
 end GeomVerif.Driver.C07
